@@ -1523,11 +1523,11 @@ fn push_pc(c: &mut Ctx, b: Bm) {
 /// Which way does the path go on `cond`?  Forks when both sides are feasible.
 pub fn decide(cond: Bm) -> bool {
     let r = with(|c| {
-        if !c.active {
-            panic!("symx: symbolic decision outside explore()");
-        }
         if let Some(v) = c.arena.bval(cond) {
             return Ok(v);
+        }
+        if !c.active {
+            panic!("symx: symbolic decision outside explore()");
         }
         let ncond = {
             let ar = &mut c.arena;
